@@ -312,7 +312,8 @@ type lexer struct {
 	name        string    // the name of the input; used only during errors.
 	input       string    // the string being scanned.
 	state       stateFn   // the next lexing function to enter.
-	base        ast.Pos   // position of the input in the file it was cut out of (quoted expressions).
+	base        ast.Pos   // position, in its file, of the tag whose attribute this input was cut out of (quoted expressions): every item gets this position.
+	fixed       bool      // is this a quoted expression (see base)?
 	pos         ast.Pos   // current position in the input.
 	start       ast.Pos   // start position of this item.
 	width       int       // width of last rune read from input.
@@ -351,12 +352,13 @@ func lexExpr(name, input string) *lexer {
 }
 
 // lexExprAt lexes a single expression that was cut out of a file (the value of
-// a quoted attribute); its items get positions in that file, counted from base.
+// a quoted attribute); its items all get the position base, that of their tag.
 func lexExprAt(name, input string, base ast.Pos) *lexer {
 	l := &lexer{
 		name:  name,
 		input: input,
 		base:  base,
+		fixed: base != 0,
 		items: make(chan item),
 		state: lexInsideTag,
 	}
@@ -401,7 +403,7 @@ func (l *lexer) emit(t itemType) {
 	if l.pos > ast.Pos(len(l.input)) {
 		l.pos = ast.Pos(len(l.input))
 	}
-	l.lastEmit = item{t, l.base + l.pos, l.input[l.start:l.pos]}
+	l.lastEmit = item{t, l.itemPos(), l.input[l.start:l.pos]}
 	l.items <- l.lastEmit
 	l.start = l.pos
 }
@@ -429,15 +431,31 @@ func (l *lexer) acceptRun(valid string) bool {
 	return l.pos > pos
 }
 
+// itemPos is the position given to the item that ends at the current position.
+// The text of a quoted attribute was unquoted before it is scanned here, so
+// offsets into it are not offsets into the file (they may even lie beyond its
+// end): the items of such an expression all get the position of their tag.
+func (l *lexer) itemPos() ast.Pos {
+	if l.fixed {
+		return l.base
+	}
+	return l.pos
+}
+
 // lineNumber reports which line we're on. Doing it this way
 // means we don't have to worry about peek double counting.
 func (l *lexer) lineNumber(pos ast.Pos) int {
-	return 1 + strings.Count(l.input[:pos-l.base], "\n")
+	if l.fixed {
+		return 1
+	}
+	return 1 + strings.Count(l.input[:pos], "\n")
 }
 
 // columnNumber reports which column in the current line we're on.
 func (l *lexer) columnNumber(pos ast.Pos) int {
-	pos -= l.base
+	if l.fixed {
+		return 0
+	}
 	n := strings.LastIndex(l.input[:pos], "\n")
 	if n == -1 {
 		n = 0
@@ -448,7 +466,7 @@ func (l *lexer) columnNumber(pos ast.Pos) int {
 // errorf returns an error item and terminates the scan by passing
 // back a nil pointer that will be the next state, terminating l.nextItem.
 func (l *lexer) errorf(format string, args ...interface{}) stateFn {
-	l.items <- item{itemError, l.base + l.pos, fmt.Sprintf(format, args...)}
+	l.items <- item{itemError, l.itemPos(), fmt.Sprintf(format, args...)}
 	return nil
 }
 
